@@ -25,7 +25,10 @@
         whole chain, which fails before anything is changed).
 
     Differences to C25's model are confined to: connectBlock may fail; a
-    reorganisation stops at the first failing attach (and stays there). *)
+    reorganisation stops at the first failing attach (and stays there);
+    ProcessOrphans goes on after an orphan that was refused (the repaired
+    orphanpool.go; C25's model of the loop stops there, which never happens
+    in its world of valid blocks with consistent heights). *)
 From Coq Require Import List ZArith NArith Bool.
 From C33 Require Export C25.Model.   (* block/mkB, memN, take_until, drop_until, margin *)
 Import ListNotations.
@@ -201,7 +204,10 @@ Definition vaccept (fin : Z) (s : vstate) (i : item) : vstate * bool * verrc :=
         vconnect_best fin s1 b td (ibody i)
   end.
 
-(** ProcessOrphans (breadth-first; stops at the first error) *)
+(** ProcessOrphans (breadth-first).  An orphan that maybeAcceptBlock refuses is
+    dropped from the pool and the loop goes on with the next one (the error is
+    only logged); a panic leaves the loop, and so does the model's own
+    out-of-fuel value. *)
 Fixpoint vporph (fuel : nat) (fin : Z) (q : list N) (s : vstate) : vstate * verrc :=
   match fuel with
   | O => (s, VFuel)
@@ -215,7 +221,9 @@ Fixpoint vporph (fuel : nat) (fin : Z) (q : list N) (s : vstate) : vstate * verr
               let s0 := mkV (vidx s) (remove_vorph (ihash c) (vorph s)) (vmain s) (vstore s) in
               match vaccept fin s0 c with
               | (s1, _, VNone) => vporph f fin (q ++ [ihash c]) s1
-              | (s1, _, e) => (s1, e)
+              | (s1, _, VPanic) => (s1, VPanic)
+              | (s1, _, VFuel) => (s1, VFuel)
+              | (s1, _, _) => vporph f fin q s1
               end
           end
       end
